@@ -575,6 +575,19 @@ def _policy(spec, mon, rec):
         for form in ('attr', 'method', 'index'):
             for name in NAMES:
                 policy_check(mon, cfg, form, name, rec)
+        # keys that are not names (positions, null, booleans, structures) never reach a yaqlized object's
+        # __getitem__: the whitelist/blacklist/underscore rules are stated for names
+        for key_text in ('0', 'null', 'true', '1.5', '[1, 2]', '-1', '{a => 1}'):
+            p, settings = build_probe(cfg)
+            out = mon.run('$p[%s]' % key_text, {'p': p})
+            rec.count('policy.cases')
+            rec.count('policy.non_name_keys')
+            rec.case(('policy-non-name-key', tuple(sorted((k, str(v)) for k, v in cfg.items())), key_text), nontrivial=True)
+            touched = [k for k, s in LOG.items] + [n for n, s in LOG.attrs]
+            if touched or out[0] == 'value':
+                rec.violation('yaqlized-policy:non-name-key-reached:index',
+                              '$p[%s] with settings %r: touches %r, outcome %r' % (key_text, cfg, touched, out),
+                              {'kind': 'policy', 'cfg': cfg, 'form': 'index', 'name': key_text})
         if idx % 64 == 0:
             rec.sample({'kind': 'policy', 'settings': cfg, 'forms': ['$p.pub', '$p.meth()', '$p[pub]']})
     if spec['part'] == 0:
